@@ -55,4 +55,10 @@ for (m, rids), r in zip(jobs, res):
         else:
             print('silent  ', m['name'])
 print('%d mutants, %d problems, %d not applicable on this tree, %.1fs' % (len(jobs), bad, notapp, time.time() - t))
+if not bad and not notapp and not only:
+    import json
+    with open(os.path.join('tables', 'selftest_validated.json'), 'w') as f:
+        json.dump({'_doc': 'digests of the /repo sources against which the whole mutant catalogue last passed (written by tools/selftest_all.py)',
+                   'mutants': len(jobs), 'digests': mutants.tree_digests()}, f, indent=1)
+    print('tables/selftest_validated.json updated')
 sys.exit(1 if (bad or notapp) else 0)
